@@ -6,6 +6,9 @@ Trusted here (not proved): this exporter -- opcode classification, edge extracti
 linearisation of the IR tree (seq/if/repeat/goto/label/exit_to) into blocks."""
 
 
+from vlib.coqrun import hexlit
+
+
 class Unclassifiable(Exception):
     pass
 
@@ -15,6 +18,7 @@ class Block:
         self.name = name
         self.ins = []       # "L" "U" "C" "O" ; ("call", callee) placeholders resolved later
         self.term = None    # ("jump", [targets]) | ("exit",) | ("ret",) | ("abort",)
+        self.raw = []       # printed instructions for the rich export (coq/C09/RichCfg.v)
 
 
 def classify_store(key, val, slot, temp, final):
@@ -37,6 +41,7 @@ def venom_functions(ctx, lock_op, slot, temp, final):
     from vyper.venom.basicblock import IRLabel, IRLiteral, IRVariable
 
     out = {}
+    fn_idx = {fn.name.value: i for i, fn in enumerate(ctx.functions.values())}
     for fn in ctx.functions.values():
         defs = {}
         for bb in fn.get_basic_blocks():
@@ -58,10 +63,28 @@ def venom_functions(ctx, lock_op, slot, temp, final):
         bbs = [entry] + [b for b in bbs if b is not entry]
         idx = {b.label.value: i for i, b in enumerate(bbs)}
         blocks = []
+        var_ids = {}
+
+        def arg(o):
+            if isinstance(o, IRLiteral):
+                return f"ALit {hexlit(o.value)}"
+            if isinstance(o, IRVariable):
+                return f"AVar {var_ids.setdefault(o.name, len(var_ids))}%N"
+            if isinstance(o, IRLabel):
+                if o.value in idx:
+                    return f"ALab {idx[o.value]}%N"
+                if o.value in fn_idx:
+                    return f"ALab {fn_idx[o.value]}%N"
+                return "ALab 4000000000%N"
+            raise Unclassifiable(f"operand {o!r}")
+
         for bb in bbs:
             B = Block(bb.label.value)
             for inst in bb.instructions:
                 op = inst.opcode
+                outs = inst.get_outputs()
+                o_ = f"Some {var_ids.setdefault(outs[0].name, len(var_ids))}%N" if len(outs) == 1 else "None"
+                B.raw.append(f'mkI ({o_}) "{op}" [' + "; ".join(arg(x) for x in inst.operands) + "]")
                 if op == lock_op:
                     B.ins.append(classify_store(lit(inst.operands[1]), lit(inst.operands[0]), slot, temp, final))
                 elif op == "invoke":
@@ -175,6 +198,7 @@ class LegacyLin:
             target = args[0].value
             if len(args) > 1 and args[-1].value == "symbol" and str(target).startswith("internal"):
                 self.cur.ins.append(("call", target))   # internal call; control continues at the return label
+                self.cur.raw.append(("call", target))
             else:
                 self.terminate(("jump", [self.named(target)]))
         elif v == "exit_to":
@@ -207,6 +231,8 @@ class LegacyLin:
             for a in args:
                 self.walk(a)
             self.cur.ins.append(classify_store(k, val, self.slot, self.temp, self.final))
+            lit = lambda x: f"ALit {hexlit(x)}" if x is not None else "AVar 0%N"  # noqa
+            self.cur.raw.append(f'mkI None "{self.lock_op}" [{lit(val)}; {lit(k)}]')
         elif v == "with":
             self.walk(args[1])
             self.walk(args[2])
@@ -265,6 +291,7 @@ def extract(blocks, root):
         b = blocks[o]
         nb = Block(b.name)
         nb.ins = list(b.ins)
+        nb.raw = list(b.raw)
         nb.term = ("jump", [ren[t] for t in b.term[1]]) if b.term[0] == "jump" else b.term
         out.append(nb)
     return out
@@ -363,3 +390,38 @@ def stats(blocks):
         "exits": sum(1 for b in blocks if b.term[0] == "exit"),
         "rets": sum(1 for b in blocks if b.term[0] == "ret"),
     }
+
+
+# ------------------------------------------------------------------ rich export (coq/C09/RichCfg.v)
+def rich_program(funcs, legacy):
+    """funcs: name -> blocks (entry first).  Returns the Coq rprogram term; for legacy blocks the terminator is
+    synthesised from the linearised CFG and internal calls are printed as invoke of the function index."""
+    names = list(funcs)
+    fidx = {n: i for i, n in enumerate(names)}
+    fs = []
+    for n in names:
+        bs = []
+        for b in funcs[n]:
+            if not legacy:
+                bs.append("[" + "; ".join(b.raw) + "]")
+                continue
+            ins = []
+            for r in b.raw:
+                if isinstance(r, tuple):
+                    if r[1] not in fidx:
+                        raise Unclassifiable(f"call to unknown function {r[1]}")
+                    ins.append(f'mkI None "invoke" [ALab {fidx[r[1]]}%N]')
+                else:
+                    ins.append(r)
+            t = b.term
+            if t[0] == "jump":
+                ins.append('mkI None "djmp" [' + "; ".join(f"ALab {x}%N" for x in t[1]) + "]")
+            else:
+                ins.append('mkI None "' + {"exit": "stop", "ret": "ret", "abort": "revert"}[t[0]] + '" []')
+            bs.append("[" + "; ".join(ins) + "]")
+        fs.append("[" + ";\n ".join(bs) + "]")
+    return "[" + ";\n\n ".join(fs) + "]"
+
+
+def coq_labels(lab):
+    return "[" + "; ".join(f"({'true' if x[0] else 'false'}, {'true' if x[1] else 'false'})" for x in lab) + "]"
